@@ -189,6 +189,17 @@ fn main() {
     println!("{}", hex(samlang_ast::lir::ts_prolog().as_bytes()));
     return;
   }
+  if lines.len() == 1 && lines[0].starts_with("emit ") {
+    // debugging aid: emitted TypeScript (without the prelude) of one Main module given in hex
+    let src = String::from_utf8(unhex(&lines[0][5..])).unwrap();
+    let std = src.contains("from std.");
+    match compile_program(&[("Main".to_string(), src)], "Main", std) {
+      CompileOutcome::Ok(c) => println!("{}", c.ts.replace(&samlang_ast::lir::ts_prolog(), "")),
+      CompileOutcome::Errors(e) => println!("ERRORS {e}"),
+      CompileOutcome::Panic(e) => println!("PANIC {e}"),
+    }
+    return;
+  }
   let mut answers: Vec<String> = vec![String::new(); lines.len()];
   let mut progs: Vec<Prog> = Vec::new();
   let mut cur: Option<Prog> = None;
